@@ -318,8 +318,9 @@ def corpus_cases():
 
 # Defects of the expression evaluator that were repaired in the library (known_findings.json,
 # status "fixed": exprtruth, exprmissing, strcasecmp, numtype, adddate, concatstr, nullarg,
-# condkeys, undefvar, filtertruth, mapmissing, missingcmp, minmaxtypes, sumbool, and the $ifNull /
-# extra-field parts of laxargs): their classes no longer
+# condkeys, undefvar, filtertruth, mapmissing, missingcmp, minmaxtypes, sumbool, arrayliteral,
+# boolarith, letmissing, laxargs, and the repaired parts of scalararg and arraypath): their classes
+# no longer
 # exist in Spec/ExprDomain.lean, so these inputs lie inside D (or the rules reject them and the
 # code must raise too).  They run as ordinary cases on every run, next to the
 # witnesses of the fixed findings; the old behaviour is a VIOLATION if it comes back.
@@ -438,6 +439,116 @@ REGRESSIONS = [
     ({'$sum': []}, [{}]),
     ({'$avg': []}, [{}]),
     ({'$add': [{'$sum': ['$f', '$a']}, {'$ifNull': [{'$avg': ['$f']}, 10]}]}, [{'f': True, 'a': 1}, {'f': False}]),
+    # arrayliteral (fixes fce7e55, 9ff1475): an array in expression position evaluates its items (a
+    # missing value gives null), also nested and inside operands; an operator that takes one
+    # argument accepts a one-item argument list and rejects any other number of items
+    (['$a', '$zz', ['$a', {'$add': ['$a', 1]}], {'n': '$a', 'm': '$zz'}], [{'a': 1}, {}, {'a': None}]),
+    ({'$not': ['$a']}, [{'a': 0}, {'a': 1}, {}, {'a': None}, {'a': []}]),
+    ({'$not': [['$a']]}, [{'a': 0}, {}]),
+    ({'$not': []}, [{}]),
+    ({'$not': ['$a', '$b']}, [{'a': 0, 'b': 1}]),
+    ({'$concatArrays': [['$a'], ['$zz', 2], '$l']}, [{'a': 1, 'l': [3]}, {'l': []}, {'a': 1}, {'a': 1, 'l': None}]),
+    ({'$in': [1, ['$a', '$b']]}, [{'a': 1}, {'a': 0, 'b': 1}, {'a': 0}, {}]),
+    ({'$in': ['$a', [1, 2, '$b']]}, [{'a': 1}, {'a': 5, 'b': 5}, {'a': 5}, {'b': None}]),
+    ({'$size': [['$a', '$b', '$zz']]}, [{'a': 1}, {}]),
+    ({'$arrayElemAt': [['$a', '$b'], 1]}, [{'a': 1, 'b': 2}, {'a': 1}, {}]),
+    ({'$setUnion': [['$a', '$b'], '$l']}, [{'a': 1, 'b': 1, 'l': [2]}, {'a': 1, 'l': [1]}]),
+    ({'$eq': [['$a', '$b'], '$l']}, [{'a': 1, 'b': 2, 'l': [1, 2]}, {'a': 1, 'l': [1, None]}, {'l': [None, None]}]),
+    ({'$abs': ['$a']}, [{'a': -1}, {'a': None}, {}, {'a': 'x'}]),
+    ({'$ceil': [{'$add': ['$a', 0.5]}]}, [{'a': 1}, {}]),
+    ({'$year': ['$t']}, [{'t': _T0}, {'t': None}, {}]),
+    ({'$toUpper': ['$s']}, [{'s': 'ab'}, {}, {'s': None}]),
+    ({'$toString': ['$a']}, [{'a': 5}, {'a': None}, {}]),
+    ({'$isArray': ['$l']}, [{'l': [1]}, {'l': 1}, {}]),
+    ({'$isArray': [['$a']]}, [{'a': 1}, {}]),
+    ({'$isNumber': ['$a']}, [{'a': 1}, {'a': True}, {'a': 'x'}, {}]),
+    ({'$abs': []}, [{}]),
+    ({'$toLower': ['$s', '$u']}, [{'s': 'A', 'u': 'B'}]),
+    ({'$map': {'input': ['$a', '$b', 3], 'in': {'$add': ['$$this', 1]}}}, [{'a': 1, 'b': 2}, {'a': 1}, {}]),
+    ({'$cond': [{'$isArray': [['$zz']]}, ['$a'], 'no']}, [{'a': 1}, {}]),
+    # scalararg, the repaired part (fixes f32e005, e7bd52b): a bare operand of $add $multiply $concat
+    # $and $or $setUnion is a one-item argument list; of $sum $avg $min $max the one value
+    ({'$add': '$a'}, [{'a': 1}, {'a': 2.5}, {'a': None}, {}, {'a': 'x'}, {'a': _T0}, {'a': True}]),
+    ({'$multiply': '$a'}, [{'a': 3}, {'a': None}, {}, {'a': 'x'}]),
+    ({'$add': {'$abs': '$a'}}, [{'a': -1}, {}]),
+    ({'$concat': '$s'}, [{'s': 'ab'}, {'s': None}, {}, {'s': 1}]),
+    ({'$and': '$a'}, [{'a': 1}, {'a': 0}, {}, {'a': None}, {'a': ''}]),
+    ({'$or': '$a'}, [{'a': 1}, {'a': 0}, {}, {'a': []}]),
+    ({'$and': {'$gt': ['$a', 1]}}, [{'a': 2}, {'a': 0}, {}]),
+    ({'$setUnion': '$l'}, [{'l': [1, 1, 2]}, {'l': []}, {}, {'l': None}]),
+    ({'$add': None}, [{}]),
+    ({'$sum': '$a'}, [{'a': 5}, {'a': 2.5}, {'a': 'x'}, {'a': None}, {'a': True}, {'a': _T0}, {'a': {'n': 1}}]),
+    ({'$avg': '$a'}, [{'a': 4}, {'a': 'x'}, {'a': None}, {'a': False}]),
+    ({'$max': '$a'}, [{'a': 5}, {'a': 'ab'}, {'a': None}, {'a': True}, {'a': {'x': 1, 'y': 'k'}}]),
+    ({'$min': '$s'}, [{'s': 'ab'}, {'s': ''}, {'s': None}]),
+    ({'$max': {'$add': ['$a', 2]}}, [{'a': 1}, {'a': None}, {}]),
+    ({'$sum': 5}, [{}]),
+    ({'$avg': 4}, [{}]),
+    ({'$sum': None}, [{}]),
+    ({'$max': {'$literal': [1, 'x', True]}}, [{}]),
+    ({'$sum': {'n': '$a'}}, [{'a': 1}]),
+    # boolarith (fix 10aa9e1): a boolean is rejected by the arithmetic operators and as an index;
+    # a null or missing operand that is looked at first still gives null
+    ({'$add': ['$f', 1]}, [{'f': True}, {'f': False}, {'f': None}, {}]),
+    ({'$add': ['$a', '$f']}, [{'a': None, 'f': True}, {'a': 1, 'f': True}, {'f': True}, {'a': 1}]),
+    ({'$add': ['$f', '$a']}, [{'a': None, 'f': True}, {'a': 1, 'f': False}]),
+    ({'$multiply': ['$a', '$f']}, [{'a': 2, 'f': True}, {'a': None, 'f': True}, {'f': False}]),
+    ({'$add': ['$t', '$f']}, [{'t': _T0, 'f': True}, {'t': _T0}]),
+    ({'$subtract': ['$a', '$f']}, [{'a': 2, 'f': True}, {'a': None, 'f': True}, {'a': 2}, {'f': False}]),
+    ({'$subtract': ['$f', '$a']}, [{'a': 2, 'f': True}, {'f': True}, {'a': None, 'f': False}]),
+    ({'$divide': ['$a', '$f']}, [{'a': 2, 'f': True}, {'a': 2, 'f': False}, {'f': True}]),
+    ({'$mod': ['$f', 2]}, [{'f': True}, {}]),
+    ({'$pow': ['$a', '$f']}, [{'a': 2, 'f': True}, {'a': None, 'f': True}]),
+    ({'$abs': '$f'}, [{'f': True}, {'f': False}, {'f': None}, {}]),
+    ({'$ceil': '$f'}, [{'f': True}]),
+    ({'$sqrt': '$f'}, [{'f': True}]),
+    ({'$arrayElemAt': ['$l', '$f']}, [{'l': [1, 2], 'f': True}, {'l': [1, 2], 'f': False}, {'l': None, 'f': True},
+                                      {'f': True}, {'l': [1, 2]}]),
+    ({'$slice': ['$l', True]}, [{'l': [1, 2]}]),
+    ({'$slice': ['$l', 1, True]}, [{'l': [1, 2]}]),
+    ({'$slice': ['$l', False, 1]}, [{'l': [1, 2]}]),
+    # letmissing (fix 9957044): a $let variable bound to a missing value is missing where it is
+    # used; an error in a variable still raises, used or not
+    ({'$let': {'vars': {'v': '$zz'}, 'in': 1}}, [{}, {'zz': 2}]),
+    ({'$let': {'vars': {'v': '$zz'}, 'in': '$$v'}}, [{}, {'zz': 2}]),
+    ({'$let': {'vars': {'v': '$zz'}, 'in': {'$ifNull': ['$$v', 'none']}}}, [{}, {'zz': 2}, {'zz': None}]),
+    ({'$let': {'vars': {'v': '$zz'}, 'in': ['$$v', '$$v.x']}}, [{}, {'zz': {'x': 1}}]),
+    ({'$let': {'vars': {'v': '$zz'}, 'in': {'$add': ['$$v', 1]}}}, [{}, {'zz': 2}]),
+    ({'$let': {'vars': {'v': '$zz'}, 'in': {'$cond': ['$$v', 'y', 'n']}}}, [{}, {'zz': 1}]),
+    ({'$let': {'vars': {'v': '$zz', 'w': '$a'}, 'in': {'$gt': ['$$v', '$$w']}}}, [{'a': 1}, {'a': 1, 'zz': 2}, {}]),
+    ({'$let': {'vars': {'v': 1}, 'in': {'$let': {'vars': {'v': '$zz'}, 'in': {'$ifNull': ['$$v', 'inner missing']}}}}},
+     [{}, {'zz': 5}]),
+    ({'$let': {'vars': {'v': '$zz'}, 'in': {'$let': {'vars': {'v': 7}, 'in': '$$v'}}}}, [{}]),
+    ({'$let': {'vars': {'v': '$zz'}, 'in': {'$map': {'input': '$l', 'as': 'v', 'in': '$$v'}}}}, [{'l': [1, 2]}]),
+    ({'$let': {'vars': {'v': {'$divide': [1, 0]}}, 'in': 1}}, [{}]),
+    ({'$let': {'vars': {'v': '$$REMOVE'}, 'in': {'$ifNull': ['$$v', 'removed']}}}, [{}]),
+    # laxargs (fix b53c397): variable names
+    ({'$let': {'vars': {'V': 1}, 'in': '$$V'}}, [{}]),
+    ({'$let': {'vars': {'a.b': 1}, 'in': 1}}, [{}]),
+    ({'$let': {'vars': {'': 1}, 'in': 1}}, [{}]),
+    ({'$let': {'vars': {'_x': 1}, 'in': 1}}, [{}]),
+    ({'$let': {'vars': {'x-y': 1}, 'in': 1}}, [{}]),
+    ({'$let': {'vars': {'1a': 1}, 'in': 1}}, [{}]),
+    ({'$let': {'vars': {'a_1B': '$a'}, 'in': '$$a_1B'}}, [{'a': 1}, {}]),
+    ({'$let': {'vars': {'v': '$a', 'W': 1}, 'in': '$$v'}}, [{'a': 1}]),
+    ({'$map': {'input': '$l', 'as': 'V', 'in': '$$V'}}, [{'l': [1]}, {'l': None}, {}]),
+    ({'$map': {'input': '$l', 'as': 'x.y', 'in': 1}}, [{'l': [1]}, {}]),
+    ({'$map': {'input': '$l', 'as': 5, 'in': 1}}, [{'l': [1]}]),
+    ({'$map': {'input': '$l', 'as': 'it_2', 'in': {'$add': ['$$it_2', 1]}}}, [{'l': [1, 2]}]),
+    ({'$filter': {'input': '$l', 'as': 'V', 'cond': True}}, [{'l': [1]}, {'l': None}]),
+    ({'$filter': {'input': '$l', 'as': '', 'cond': True}}, [{'l': [1]}]),
+    ({'$filter': {'input': '$l', 'as': 'e1', 'cond': {'$gt': ['$$e1', 1]}}}, [{'l': [1, 2, 3]}]),
+    # arraypath, the repaired half (fix f19df5e): a path through an array gives the values that the
+    # documents of the array have at the rest of the path
+    ('$q.n', [{'q': [{'n': 1}, {'p': 2}]}, {'q': [{'n': 1}, {'n': 2}]}, {'q': [{'p': 1}]}, {'q': []},
+              {'q': [5, None, {'n': 3}, 'x']}, {'q': {'n': 4}}, {'q': 5}, {}]),
+    ('$q.d.n', [{'q': [{'d': {'n': 1}}, {'d': {}}, {'d': 5}, {}]}, {'q': [{'d': [{'n': 1}, {'n': 2}, {}]}, {'d': {'n': 3}}]}]),
+    ('$d.q.n', [{'d': {'q': [{'n': 1}, {}]}}, {'d': {}}, {'d': {'q': 5}}]),
+    ({'$size': '$q.n'}, [{'q': [{'n': 1}, {'p': 2}, {'n': None}]}, {'q': []}]),
+    ({'$sum': '$q.n'}, [{'q': [{'n': 1}, {'p': 2}, {'n': 2.5}]}, {'q': [{}]}]),
+    ({'$let': {'vars': {'v': '$q'}, 'in': '$$v.n'}}, [{'q': [{'n': 1}, {'p': 2}]}, {'q': []}]),
+    ({'$map': {'input': '$x', 'in': '$$this.n'}}, [{'x': [{'n': [{'n': 1}]}, {'n': 2}, {}]}]),
+    ({'$ifNull': ['$q.n', 'missing']}, [{'q': [{'p': 1}]}, {'q': 5}, {}]),
 ]
 
 
